@@ -110,7 +110,7 @@ type c12Round struct {
 
 func c12(ctx *core.Ctx) {
 	quietLogs()
-	ctx.Rule("rounds of W mutator goroutines (each owns one WebService key /k<i>: Add/Remove of a fresh WebService, and one route key /d<i>/r/{id:regex}: Route/RemoveRoute on its own dynamic-routes service (empty whenever the route is withdrawn) and a third key /dyn/s<i>/{id:regex} on the dynamic-routes service all mutators share, each generation with another regular expression; an OPTIONS filter is installed and readers also send OPTIONS; Remove is now and then repeated; handlers return a unique generation) and R reader goroutines probing dynamic and stable URLs; both routers x {ServeHTTP, Dispatch}; yields injected through If-conditions (inside the read-locked selection) and a container filter. Monitors: Go race detector; client-boundary history {op, key, gen, call, return} checked by porcupine per key against a register over {absent, gen}; stable URLs must always get their fixed answer; panics; blocked-goroutine state detector. Non-trivial = a read that overlapped a write of its own key; distinct by (round configuration, key, observed value class).")
+	ctx.Rule("rounds of W mutator goroutines (each owns one WebService key /k<i>: Add/Remove of a fresh WebService, and one route key /d<i>/r/{id:regex}: Route/RemoveRoute on its own dynamic-routes service (empty whenever the route is withdrawn) and a third key /dyn/s<i>/{id:regex} on the dynamic-routes service all mutators share, each generation with another regular expression; an OPTIONS filter is installed and readers also send OPTIONS; Remove and RemoveRoute are now and then repeated for something no longer registered; handlers return a unique generation) and R reader goroutines probing dynamic and stable URLs; both routers x {ServeHTTP, Dispatch}; yields injected through If-conditions (inside the read-locked selection) and a container filter. Monitors: Go race detector; client-boundary history {op, key, gen, call, return} checked by porcupine per key against a register over {absent, gen}; stable URLs must always get their fixed answer; panics; blocked-goroutine state detector. Non-trivial = a read that overlapped a write of its own key; distinct by (round configuration, key, observed value class).")
 	ctx.Assume("schedules are not reproducible: evidence reports the overlap actually observed", "a porcupine timeout is inconclusive, never a violation")
 	rounds := ctx.N(64, 6000)
 	var totalOps, totalOverlap, partitions int
@@ -238,6 +238,13 @@ func c12(ctx *core.Ctx) {
 						call := now()
 						dyns[m].RemoveRoute(rpath, "GET")
 						hist.add(porcupine.Operation{ClientId: m, Input: regIn{rkey, opRemove, 0}, Call: call, Output: 0, Return: now()})
+						if i%5 == 3 {
+							// a repeated clean-up: the route is no longer there, nothing changes
+							call = now()
+							dyns[m].RemoveRoute(rpath, "GET")
+							hist.add(porcupine.Operation{ClientId: m, Input: regIn{rkey, opRemove, 0}, Call: call, Output: 0, Return: now()})
+							ctx.Count("RemoveRoute_of_absent_route", 1)
+						}
 						routeOn = false
 					}
 					runtime.Gosched()
@@ -253,6 +260,12 @@ func c12(ctx *core.Ctx) {
 						call := now()
 						dyn.RemoveRoute(spath, "GET")
 						hist.add(porcupine.Operation{ClientId: m, Input: regIn{skey2, opRemove, 0}, Call: call, Output: 0, Return: now()})
+						if i%7 == 5 {
+							// the same for the shared service, once with the path of the route just removed, once with another method
+							dyn.RemoveRoute(spath, "GET")
+							dyn.RemoveRoute(spath, "DELETE")
+							ctx.Count("RemoveRoute_of_absent_route", 2)
+						}
 						sharedOn = false
 					}
 					runtime.Gosched()
